@@ -62,7 +62,7 @@ fn check_sizes(ctx: &Ctx, size: u16, count: u16, number: u16, st: &mut Stats) {
 }
 
 fn check_sizes_t(ctx: &Ctx, typ: u8, size: u16, count: u16, number: u16, st: &mut Stats) {
-    #[cfg(feature = "full")]
+    #[cfg(feature = "f-uomdec")]
     use uom::si::information::byte;
     let mut h = MsgHeader::simple(typ, 19000, 1000);
     h.size = size;
@@ -88,14 +88,14 @@ fn check_sizes_t(ctx: &Ctx, typ: u8, size: u16, count: u16, number: u16, st: &mu
     let seg_count = acc!("segment_count", d.segment_count());
     let seg_number = acc!("segment_number", d.segment_number());
     let bytes = acc!("message_size_bytes", d.message_size_bytes());
-    #[cfg(feature = "full")]
+    #[cfg(feature = "f-uomdec")]
     let uom_size = acc!("message_size", d.message_size().get::<byte>());
-    #[cfg(feature = "full")]
+    #[cfg(feature = "f-uomdec")]
     let seg_size = acc!("segment_size", d.segment_size().map(|x| x.get::<byte>()));
     // build-configuration variants without uom: the unit-typed accessors do not exist
-    #[cfg(not(feature = "full"))]
+    #[cfg(not(feature = "f-uomdec"))]
     let uom_size: Option<f64> = None;
-    #[cfg(not(feature = "full"))]
+    #[cfg(not(feature = "f-uomdec"))]
     let seg_size: Option<Option<f64>> = None;
     let _ = acc!("debug", format!("{:?}", d.segment_size));
 
